@@ -139,16 +139,35 @@ macro_rules | `(tactic| tx_step) => `(tactic| with_reducible apply TX.guardRemov
 theorem TX.frontStep {w : World} (h : TX fr w) (g : Nat) (gd : Guard) : TX fr (frontStep w g gd) := by
   unfold S3.frontStep; tx
 
-theorem TX.guardSignal : ∀ (fuel : Nat) {w : World}, TX fr w → ∀ g, TX fr (guardSignal fuel w g) := by
+theorem TX.condSignal_fst {w : World} (h : TX fr w) (g : Nat) : TX fr (condSignal w g).1 := by
+  simp only [Sim.condSignal]
+  split
+  · exact h
+  · split
+    · exact h
+    · refine TX.foldl (fun w q h => by tx) _ ?_
+      exact TX.foldl (fun w q h => by tx) _ h
+macro_rules | `(tactic| tx_step) => `(tactic| with_reducible apply TX.condSignal_fst)
+
+theorem TX.ownStep {w : World} (h : TX fr w) (fwd : Bool) (g : Nat) (gd : Guard) : TX fr (ownStep fwd w g gd) := by
+  unfold S3.ownStep
+  split
+  · exact h.condSignal_fst g
+  · exact h.frontStep g gd
+
+theorem TX.guardSignalF : ∀ (fuel : Nat) (fwd : Bool) {w : World}, TX fr w → ∀ g, TX fr (guardSignalF fwd fuel w g) := by
   intro fuel
   induction fuel with
-  | zero => intro w h g; rw [guardSignal_zero]; exact h.fail _
+  | zero => intro fwd w h g; rw [guardSignalF_zero]; exact h.fail _
   | succ fuel ih =>
-    intro w h g
-    rw [guardSignal_succ]
+    intro fwd w h g
+    rw [guardSignalF_succ]
     split
     · exact h
-    · exact TX.foldl (fun w o hw => ih hw o) _ (h.frontStep g _)
+    · exact TX.foldl (fun w o hw => ih true hw o) _ (h.ownStep fwd g _)
+
+theorem TX.guardSignal (fuel : Nat) {w : World} (h : TX fr w) (g : Nat) : TX fr (guardSignal fuel w g) :=
+  TX.guardSignalF fuel false h g
 
 theorem TX.signal {w : World} (h : TX fr w) (g : Nat) : TX fr (signal w g) := TX.guardSignal 8 h g
 macro_rules | `(tactic| tx_step) => `(tactic| with_reducible apply TX.signal)
@@ -204,15 +223,6 @@ theorem TX.poolRollback {w : World} (h : TX fr w) (p : Pid) (pl ini : Nat) : TX 
   simp only [Sim.poolRollback]; tx
 macro_rules | `(tactic| tx_step) => `(tactic| with_reducible apply TX.poolRollback)
 
-theorem TX.condSignal_fst {w : World} (h : TX fr w) (g : Nat) : TX fr (condSignal w g).1 := by
-  simp only [Sim.condSignal]
-  split
-  · exact h
-  · split
-    · exact h
-    · refine TX.foldl (fun w q h => by tx) _ ?_
-      exact TX.foldl (fun w q h => by tx) _ h
-macro_rules | `(tactic| tx_step) => `(tactic| with_reducible apply TX.condSignal_fst)
 
 theorem TX.setRecording {w : World} (h : TX fr w) (kind idx : Nat) (on : Bool) : TX fr (setRecording w kind idx on) := by
   simp only [Sim.setRecording]; tx
